@@ -142,11 +142,11 @@ pub fn scoped_write<'a, L: RawLock + Lockable + ?Sized, R>(
 			|| collection.raw_unlock_write(),
 		);
 
-		// this ensures the key is held long enough
-		drop(key);
-
 		// safety: we've locked already, and aren't using the data again
 		collection.raw_unlock_write();
+
+		// the key is only given back once nothing is held any more
+		drop(key);
 
 		r
 	}
@@ -169,11 +169,11 @@ pub fn scoped_try_write<'a, L: RawLock + Lockable + ?Sized, Key: Keyable, R>(
 			|| collection.raw_unlock_write(),
 		);
 
-		// this ensures the key is held long enough
-		drop(key);
-
 		// safety: we've locked already, and aren't using the data again
 		collection.raw_unlock_write();
+
+		// the key is only given back once nothing is held any more
+		drop(key);
 
 		Ok(r)
 	}
@@ -191,11 +191,11 @@ pub fn scoped_read<'a, L: RawLock + Sharable + ?Sized, R>(
 		// safety: we just locked this
 		let r = handle_unwind(|| f(collection.data_ref()), || collection.raw_unlock_read());
 
-		// this ensures the key is held long enough
-		drop(key);
-
 		// safety: we've locked already, and aren't using the data again
 		collection.raw_unlock_read();
+
+		// the key is only given back once nothing is held any more
+		drop(key);
 
 		r
 	}
@@ -215,11 +215,11 @@ pub fn scoped_try_read<'a, L: RawLock + Sharable + ?Sized, Key: Keyable, R>(
 		// safety: we just locked this
 		let r = handle_unwind(|| f(collection.data_ref()), || collection.raw_unlock_read());
 
-		// this ensures the key is held long enough
-		drop(key);
-
 		// safety: we've locked already, and aren't using the data again
 		collection.raw_unlock_read();
+
+		// the key is only given back once nothing is held any more
+		drop(key);
 
 		Ok(r)
 	}
